@@ -53,7 +53,7 @@ def resLine (s : St) (name : String) (r : Res) : String :=
   | .err er => s!"P {name} {errName er} size={sz}"
 
 def doOp (s : St) (name : String) (op : Op) : Option St × List String :=
-  let (g', r) := gstep s.g op
+  let (g', r) := gstep natCmp s.g op
   let s' := compact { s with g := g' }
   (some s', resLine s' name r :: stateLines s')
 
